@@ -14,7 +14,7 @@ def oracle(case, outs):
     name, backend, gid, d, ops = case
     bad = []
     prev = None
-    st = {"ok_single_head": 0, "ok_multi_head": 0, "fail_single_head": 0, "fail_multi_head": 0, "fail_after_k": {}, "empty_action": 0}
+    st = {"io_fault_single_head": 0, "io_fault_multi_head": 0, "ok_single_head": 0, "ok_multi_head": 0, "fail_single_head": 0, "fail_multi_head": 0, "fail_after_k": {}, "empty_action": 0}
     for j, (op, o) in enumerate(zip(ops, outs)):
         if op[0] == "action" and prev is not None and prev["heads"] is not None:
             multi = len(prev["heads"]) >= 2
@@ -39,6 +39,8 @@ def oracle(case, outs):
                     bad.append((j, "sink log of a successful action is not Begin..Commit: %s" % o["sink"]))
             else:
                 st["fail_multi_head" if multi else "fail_single_head"] += 1
+                if o["res"] == "err:Storage:IoError":
+                    st["io_fault_multi_head" if multi else "io_fault_single_head"] += 1
                 if op[2] is not None:
                     st["fail_after_k"][str(op[2])] = st["fail_after_k"].get(str(op[2]), 0) + 1
                 if not pubs:
@@ -60,9 +62,11 @@ def run(ctx):
     n = 220 if ctx.thorough else 30
     for i in range(n):
         d = T.gen_dag(r, r.range(6, 45 if ctx.thorough else 18), reject_w=4, merge_w=10, deep_w=30)
-        ops = T.gen_history(r, d, ntx=r.choice([1, 2, 3]), p_flush=6, p_commit=14, p_action=22, p_probe=1, p_dup=4, p_bad=2)
+        ops = T.gen_history(r, d, ntx=r.choice([1, 2, 3]), p_flush=6, p_commit=14, p_action=22, p_probe=1, p_dup=4, p_bad=2, p_fault=14)
         # make sure there are actions on the final (often multi-head) state
         for _ in range(r.choice([1, 2, 3])):
+            if r.below(100) < 25:
+                ops.append(("fault", "commit", 1))
             k = r.choice([0, 1, 2, 3, 5])
             cmds = [((1 << 41) + r.below(1 << 30), r.choice([0, 1, 2]), T.rand_prog(r, 10)) for _ in range(k)]
             ops.append(("action", r.below(2) == 0, r.choice([None, None, 0, k, r.below(k + 1)]), cmds))
@@ -100,4 +104,5 @@ def run(ctx):
                       dict(T.replay_obj(cases[ci], res[ci], why, j), contradicts="action_atomic (coq/props/C07.v)"))
     T.report_mismatches(ctx, cases, res, mm)
     ctx.oblige("oracle:atomicity-on-impl-output", not viol, str(viol[:3]))
-    ctx.oblige("coverage:multi-head-failing-action", tot.get("fail_multi_head", 0) > 0 and tot.get("ok_multi_head", 0) > 0, str(tot))
+    ctx.oblige("coverage:multi-head-failing-action", tot.get("fail_multi_head", 0) > 0 and tot.get("ok_multi_head", 0) > 0
+               and tot.get("io_fault_single_head", 0) + tot.get("io_fault_multi_head", 0) > 0, str(tot))
